@@ -111,7 +111,7 @@ def render(lhs, terms):
     return "%s = %s" % (lhs, " + ".join(ts))
 
 
-def instances():
+def instances(quick=True):
     B = bases()
     out = []
 
@@ -173,6 +173,11 @@ def instances():
     # flatten rules on the matmul / 3-tensor bases
     others = ["uniform_shape(2)", "nway_shape(2)", "uniform_occupancy(A.2)", "flatten()"]
     tuples2 = {"mm": [("M", "K"), ("K", "M"), ("K", "N"), ("N", "K")], "t3_flat": [("J", "K", "M"), ("K", "M"), ("J", "K"), ("M", "J", "K")]}
+    if not quick:
+        tuples2["mm3"] = [("K", "M"), ("M", "K")]
+        tuples2["take"] = [("K", "M"), ("M", "K")]
+        tuples2["sum"] = [("K", "M"), ("M", "K")]
+        tuples2["t3_flat"] += [("K", "J", "M"), ("M", "K"), ("K", "J"), ("J", "M")]
     for bn, tups in tuples2.items():
         base = copy.deepcopy(B[bn])
         base["mapping"] = {}
@@ -218,8 +223,12 @@ def instances():
     occ = "uniform_occupancy(A.4)"
     for stack in ([occ, "nway_shape(2)"], [occ, occ, "nway_shape(2)"], [occ, "nway_shape(2)", occ], ["uniform_shape(8)", occ, "nway_shape(2)"],
                   [occ, "nway_shape(2)", "uniform_shape(1)"]):
-        for r in ("K", "M"):
+        for r in ("K", "M") if quick else ("K", "M", "N"):
             add("R10-nway-after-occupancy", "mm", "%s: %s" % (r, stack), with_map(MM, partitioning={"Z": {r: stack}}))
+            if not quick:
+                other = "M" if r != "M" else "K"
+                add("R10-nway-after-occupancy", "mm", "%s: %s + %s shape" % (r, stack, other),
+                    with_map(MM, partitioning={"Z": {r: stack, other: ["uniform_shape(2)"]}}))
     # R13 loop order that projects into the output
     convb = {"einsum": {"declaration": {"I": ["W"], "F": ["S"], "O": ["Q"]}, "expressions": ["O[q] = I[q + s] * F[s]"]}, "mapping": {}}
     for lo in (["W", "S"], ["S", "W"]):
@@ -273,7 +282,7 @@ def check_base(item):
 
 
 def run(ctx):
-    insts = instances()
+    insts = instances(ctx.quick)
     bs = list(bases().items())
     base_err = [x for x in pmap(check_base, bs, jobs=ctx.jobs) if x]
     res = pmap(check, insts, jobs=ctx.jobs, seed=ctx.seed, progress="C18")
